@@ -20,7 +20,7 @@ from cxa.index import AnalysisError, Index  # noqa: E402
 from cxa.report import run_property  # noqa: E402
 from cxa.report import load_known  # noqa: E402
 
-ALL = [f"C{i:02d}" for i in range(1, 21) if i != 7]
+ALL = [f"C{i:02d}" for i in range(1, 21)]
 
 
 def _digest():
